@@ -219,13 +219,32 @@ def run_meta(ctx, exe, cases):
             continue
         ctx.count('representations.' + rep[0])
         if (ci, ct, fr) in base and cp != base[(ci, ct, fr)][0]:
-            ctx.violation(rep[0], '%s: %s/%s pc=%d rs=%d regime=%s: canonical solutions of two representations of the same input differ '
-                          '(%d vs %d paths)' % (rep[0], CT[ct], FR[fr], c['pc'], c['rs'], c['regime'], len(base[(ci, ct, fr)][0]), len(cp)),
+            key, why = rep[0], ''
+            if same_directed_edges(base[(ci, ct, fr)][0], cp):
+                # the same boundary, cut into paths differently at a vertex through which two strands pass
+                key = 'meta.relinked-at-touching-vertex'
+                why = ' [both solutions consist of exactly the same directed edges: only the linking at a vertex visited twice differs]'
+            ctx.violation(key, '%s: %s/%s pc=%d rs=%d regime=%s: canonical solutions of two representations of the same input differ '
+                          '(%d vs %d paths)%s' % (rep[0], CT[ct], FR[fr], c['pc'], c['rs'], c['regime'], len(base[(ci, ct, fr)][0]), len(cp), why),
                           replay=dict(kind='meta', key=rep[0], pc=c['pc'], rs=c['rs'],
                                       A=dict(S=c['S'], C=c['C'], ct=ct, fr=fr), B=dict(S=rep[1], C=rep[2], ct=rep[3], fr=rep[4]),
                                       solutionA=base[(ci, ct, fr)][0], solutionB=cp))
     ctx.cov['distinct_nontrivial'] = ctx.cov.get('distinct_nontrivial', 0) + len(nontrivial)
     return base
+
+
+def same_directed_edges(A, B):
+    """True when two path sets are made of exactly the same multiset of directed edges (then they bound the same
+    region with the same multiplicities and differ only in how the edges are linked into paths at shared vertices)"""
+    def edges(ps):
+        es = {}
+        for p in ps:
+            n = len(p)
+            for i in range(n):
+                e = (tuple(p[i]), tuple(p[(i + 1) % n]))
+                es[e] = es.get(e, 0) + 1
+        return es
+    return edges(A) == edges(B)
 
 
 # ----------------------------------------------------------------------------- region identities and maps
@@ -428,7 +447,8 @@ def replay(ctx, path):
             sols.append(vf.canon_paths(parse_bool(o)['closed']))
             print(side, sols[-1])
         if sols[0] != sols[1]:
-            ctx.violation(r['key'], 'replayed: canonical solutions differ', replay=r)
+            key = 'meta.relinked-at-touching-vertex' if same_directed_edges(sols[0], sols[1]) else r['key']
+            ctx.violation(key, 'replayed: canonical solutions differ', replay=r)
         return
     # region relation
     S, C, fr = P(r['S']), P(r['C']), r['fr']
